@@ -215,6 +215,12 @@ bool OSSLDH::deriveKey(SymmetricKey **ppSymmetricKey, PublicKey* publicKey, Priv
 	// Derive the secret
 	ByteString secret, derivedSecret;
 	int size = DH_size(priv);
+	if (size <= 0)
+	{
+		ERROR_MSG("Invalid DH prime");
+
+		return false;
+	}
 	secret.wipe(size);
 	derivedSecret.wipe(size);
 	int keySize = DH_compute_key(&derivedSecret[0], bn_pub_key, priv);
